@@ -188,7 +188,8 @@ pub fn check(which: Which, sql: &str, w: &DpWorld, with_sd: bool, strategy: Stra
     let pu: PrivacyUnit = w.privacy_unit();
     let params = qrlew::differential_privacy::DpParameters::from_epsilon_delta(1.0, 1e-3);
     let sd = if with_sd { Some(synthetic_data(w)) } else { None };
-    let protected_names: Vec<String> = pu.iter().map(|(n, _)| n.clone()).collect();
+    // Relation names of the protected tables (the privacy unit is keyed by hierarchy key)
+    let protected_names: Vec<String> = pu.iter().map(|(n, _)| format!("{}{}", w.cat.rel_prefix, n)).collect();
     let protected = |r: &Relation| protected_names.iter().any(|n| n == r.name());
     let case = || json!({"query": sql, "synthetic_data": with_sd, "strategy": format!("{:?}", strategy), "entry_point": entry, "relation": rel.to_string()});
     // the public pipeline
